@@ -7,6 +7,7 @@
 package main
 
 import (
+	"strconv"
 	"bytes"
 	"flag"
 	"fmt"
@@ -30,6 +31,10 @@ func (h *logHandler) ServeHTTP(w http.ResponseWriter, r *http.Request) {
 	r.Body = io.NopCloser(bytes.NewReader(body))
 	token := r.URL.Query().Get("t")
 	fmt.Fprintf(h.log, "S %d %s %d\n", os.Getpid(), token, time.Now().UnixNano())
+	if ms, err := strconv.Atoi(r.URL.Query().Get("sleep")); err == nil && ms > 0 {
+		// a handler that takes a known time (scenario "slowhead"): harness-side, not Zn code
+		time.Sleep(time.Duration(ms) * time.Millisecond)
+	}
 	h.inner.ServeHTTP(w, r)
 	fmt.Fprintf(h.log, "E %d %s %d\n", os.Getpid(), token, time.Now().UnixNano())
 }
